@@ -2,6 +2,7 @@ package main
 
 import (
 	"fmt"
+	"sort"
 	"go/ast"
 	"go/token"
 	"strconv"
@@ -380,6 +381,11 @@ func genExtracted(b *strings.Builder, root, authp, httpio *pkg) {
 	w("Definition lazywriter_has_failed_arm : bool := %s.", coqBool(lazyWriterFailedArm(root)))
 	w("(* handleCall derives every handler context from the connection context and registers the cancel function only for id-bearing calls *)")
 	w("Definition handleCall_ctx_derivation : string := %s.", coqStr(handleCallCtx(root)))
+	w("(* reverse client plumbing *)")
+	w("Definition reverse_binding : list string := %s.", strList(assignsIn(root, "WithReverseClient", []string{"cl.exiting", "conn.requests"})))
+	w("Definition callsites_reverseClientBuilder : list string := %s.", strList(callSites(root, "reverseClientBuilder")))
+	w("Definition handleWS_builder_call : string := %s.", coqStr(builderCall(root)))
+	w("Definition client_handler_setup : list string := %s.", strList(assignsIn(root, "websocketClient", []string{"sc.methodNameFormatter", "h.aliasedMethods"})))
 	w("")
 	w("(* package auth *)")
 	sh := authp.funcDecl("Handler", "ServeHTTP")
@@ -739,6 +745,48 @@ func handleCallCtx(p *pkg) string {
 	ast.Inspect(fd.Body, func(n ast.Node) bool {
 		if as, ok := n.(*ast.AssignStmt); ok && len(as.Lhs) == 2 && exprString(as.Lhs[0]) == "ctx" && exprString(as.Lhs[1]) == "cancel" {
 			out = exprString2(as.Rhs[0])
+		}
+		return true
+	})
+	return out
+}
+
+// assignments `lhs = rhs` (textual) to the given left-hand sides anywhere inside function fn (func literals included)
+func assignsIn(p *pkg, fn string, lhss []string) []string {
+	fd := p.anyFunc(fn)
+	if fd == nil {
+		die("%s not found", fn)
+	}
+	want := map[string]bool{}
+	for _, l := range lhss {
+		want[l] = true
+	}
+	var out []string
+	ast.Inspect(fd.Body, func(n ast.Node) bool {
+		if as, ok := n.(*ast.AssignStmt); ok && len(as.Lhs) == 1 && len(as.Rhs) == 1 && want[exprString(as.Lhs[0])] {
+			out = append(out, exprString(as.Lhs[0])+" = "+exprString2(as.Rhs[0]))
+		}
+		return true
+	})
+	sort.Strings(out)
+	return out
+}
+
+func builderCall(p *pkg) string {
+	fd := p.funcDecl("RPCServer", "handleWS")
+	if fd == nil {
+		die("handleWS not found")
+	}
+	out := ""
+	ast.Inspect(fd.Body, func(n ast.Node) bool {
+		if as, ok := n.(*ast.AssignStmt); ok && len(as.Rhs) == 1 {
+			if ce, ok := as.Rhs[0].(*ast.CallExpr); ok && strings.HasSuffix(exprString(ce.Fun), "reverseClientBuilder") {
+				var l []string
+				for _, x := range as.Lhs {
+					l = append(l, exprString(x))
+				}
+				out = strings.Join(l, ", ") + " " + as.Tok.String() + " " + exprString2(as.Rhs[0])
+			}
 		}
 		return true
 	})
